@@ -3,7 +3,7 @@ import re
 
 from ..absval import AbsEval, F, IVL, i_contains, show
 from ..anchors import AnchorLost, OptimiserAnchors, container_root, is_trait_call
-from ..cfg import CFG
+from ..cfg import CFG, term_succs
 from ..harness import where
 from ..lineage import through
 from ..mirutil import Defs, Tracer, call_matches, callee_name, const_value, field_path, uses_of_local
@@ -1232,6 +1232,52 @@ def _r2(ctx, oa):
 
 # ------------------------------------------------------------------------------------------------ R3
 
+def _def_reaches_outside(b, cfg, l, bi, si, region):
+    """Does the value written to local l by statement si of block bi reach a read of l outside `region` (reaching
+    definitions: forward from the write, a path ends at the next whole write of l)?  Drops are not reads."""
+    uses = {}
+    for (ub, ui, role) in uses_of_local(b, l):
+        if role == 'drop':
+            continue
+        uses.setdefault(ub, []).append(10 ** 9 if ui == 'term' else ui)
+
+    def scan(bx, start):
+        # -> (visible, killed)
+        bb = b.blocks[bx]
+        for k in range(start, len(bb['stmts'])):
+            if k in uses.get(bx, ()) and bx not in region:
+                return True, False
+            s0 = bb['stmts'][k]
+            if s0['s'] == 'assign' and s0['place']['l'] == l and not s0['place']['p']:
+                # the right-hand side is read before the write
+                return False, True
+        if 10 ** 9 in uses.get(bx, ()) and bx not in region:
+            return True, False
+        t = bb['term']
+        if t['t'] == 'call' and t.get('dest') and t['dest']['l'] == l and not t['dest']['p']:
+            return False, True
+        return False, False
+
+    vis, killed = scan(bi, si + 1)
+    if vis:
+        return True
+    if killed:
+        return False
+    seen = set()
+    work = [x for x in term_succs(b.blocks[bi]['term'])]
+    while work:
+        x = work.pop()
+        if x in seen or x not in cfg.reach or b.blocks[x].get('cleanup'):
+            continue
+        seen.add(x)
+        vis, killed = scan(x, 0)
+        if vis:
+            return True
+        if not killed:
+            work.extend(term_succs(b.blocks[x]['term']))
+    return False
+
+
 def _r3(ctx, oa):
     rep, f, cg = ctx.rep, ctx.facts, ctx.cg
     b, cfg, tr = oa.body, oa.cfg, oa.tr
@@ -1296,6 +1342,8 @@ def _r3(ctx, oa):
                         continue
                 if (ty == 'bool' and b.local_name(l) is None) or ty == '()':
                     continue   # drop flags / unit temporaries
+                if not _def_reaches_outside(b, cfg, l, bi, si, region):
+                    continue   # the value written here is read only inside the block (reaching definitions)
                 bad.append((bi, 'local _%d (%s: %s) is written in the convergence block and visible outside it'
                             % (l, b.local_name(l), ty)))
         t = bb['term']
